@@ -13,7 +13,7 @@ import typing as t
 
 from .load import Cls, Func, Repo
 from .sym import Atom, Lin, Ref, SBytes, Seg, SObj, SStr, STuple, Unknown
-from .symeval import Read, ReadVal, SView, TRef, Unsupported
+from .symeval import DictMap, Read, ReadVal, SView, TRef, Unsupported, parse_type
 from . import layout
 
 
@@ -80,6 +80,9 @@ class Matcher:
         self.size_of = size_of
         self.notes: t.List[str] = []
         self.cond_truth: t.Dict[int, bool] = {}
+        self.enums: t.Dict[str, Seg] = {}
+        self.extractions: t.List[t.Tuple[str, Lin, int, int]] = []  # (field path, word, mask, shift)
+        self.field_types: t.Dict[str, Cls] = {}
 
     def sub(self, x: Lin) -> Lin:
         y = x.subst(self.rmap)
@@ -98,6 +101,9 @@ class Matcher:
             return self.read_repeat(r)
         if r.kind == "lit":
             return self.read_lit(r, lo, hi)
+        if r.kind in ("str", "raw") and width.is_const() and width.const <= 0:
+            self.vals[r.rid] = ("empty", None)  # an empty slice decodes to the empty value
+            return None
         i = tb.find(lo)
         if i is None:
             ins = tb.find_inside(lo)
@@ -118,6 +124,13 @@ class Matcher:
                     self.used.add(i)
                     return None
                 return Mismatch(f"integer read of {width!r} bytes at {lo!r} lands on {seg.kind} segment of width {seg.width!r}", r.node)
+            if seg.kind == "enum":
+                if not (seg.width == width):
+                    return Mismatch(f"width differs for the code of {_segname(seg)} at {lo!r}: writer {seg.width!r}, reader {width!r}", r.node)
+                self.rmap[("read", r.rid)] = Lin.atom(("enumint", seg.ref.path, r.a.get("order")))
+                self.enums[seg.ref.path] = seg
+                self.used.add(i)
+                return None
             if seg.kind != "int":
                 return Mismatch(f"reader decodes an integer at offset {lo!r} but the writer emits a {seg.kind} segment ({_segname(seg)}) there", r.node)
             sw = t.cast(Lin, seg.width)
@@ -251,11 +264,34 @@ class Matcher:
             got = self.sub(v)
             if got == Lin.atom(("field", path)):
                 return None
+            bf = self.bitfield(got, path)
+            if bf is not None:
+                return bf or None
             return f"reader builds {path} from {got!r}"
+        if isinstance(v, DictMap):
+            key = self.sub(v.key) if isinstance(v.key, Lin) else None
+            if key is None or len(key.terms) != 1 or key.const != 0:
+                return f"reader maps {path} from {v.key!r}"
+            (atom, coef), = key.terms.items()
+            if atom[0] != "enumint" or coef != 1:
+                return f"reader maps {path} from {key!r}, not from the code the writer emits"
+            if atom[1] != path:
+                return f"reader maps {path} from the code written for {atom[1]}"
+            seg = self.enums[atom[1]]
+            order = "big" if atom[2] == "big" else "little"
+            for k, b in seg.mapping.items():
+                back = v.table.get(int.from_bytes(b, order))
+                if back != k:
+                    return f"code table disagrees for {path}={k!r}: writer emits {b!r}, reader maps it to {back!r}"
+            return None
         if isinstance(v, ReadVal):
             kind, ref = self.vals.get(v.rid, (None, None))
             if ref == path:
                 return None
+            if kind == "empty":
+                if any(c.info.get("truthy") == path and pol is False for c, pol in wconds):
+                    return None
+                return f"reader yields an empty value for {path} on a path where the writer emitted it"
             return f"reader builds {path} from the {kind} written for {ref}"
         if isinstance(v, SView):
             lo, hi = self.sub(v.lo), self.sub(v.hi)
@@ -296,6 +332,69 @@ class Matcher:
             return None if v.parts[0].path == path.split(".", 1)[-1] else f"reader passes {v.parts[0].path} as {path}"
         return f"reader value for {path} is not understood: {v!r}"
 
+    def bitfield(self, got: Lin, path: str) -> t.Optional[str]:
+        """Recognise ((word & mask) >> shift) over word = OR of (field << shift).
+        Returns None when `got` is not such an extraction, "" when it is a correct
+        extraction of `path`, otherwise the reason it is wrong."""
+        if got.const != 0 or len(got.terms) != 1:
+            return None
+        (atom, coef), = got.terms.items()
+        if coef != 1:
+            return None
+        shift = 0
+        if atom[0] == "rshift" and isinstance(atom[2], Lin) and atom[2].is_const():
+            shift = atom[2].const
+            inner = atom[1]
+            if inner.const != 0 or len(inner.terms) != 1:
+                return None
+            (atom, c2), = inner.terms.items()
+            if c2 != 1:
+                return None
+        if atom[0] != "bitand" or not isinstance(atom[2], Lin) or not isinstance(atom[1], Lin):
+            return None
+        word, mask = (atom[1], atom[2]) if atom[2].is_const() else (atom[2], atom[1])
+        if not mask.is_const():
+            return None
+        terms = _or_terms(word)
+        if terms is None:
+            return None
+        mine = [(f, s) for f, s in terms if f == path]
+        if not mine:
+            return f"reader extracts {path} from a word that does not contain it ({word!r})"
+        wshift = mine[0][1]
+        m = mask.const
+        if shift != wshift:
+            return f"bit position differs for {path}: writer shifts by {wshift}, reader by {shift} (mask {m:#x})"
+        if m & ((1 << wshift) - 1) or m <= 0:
+            return f"mask {m:#x} for {path} includes bits below its position {wshift}"
+        dom = self.domain(path)
+        if dom is not None and (dom << wshift) & ~m:
+            return f"mask {m:#x} for {path} does not cover its values ({dom:#x} << {wshift})"
+        for f, s in terms:
+            if f == path:
+                continue
+            d2 = self.domain(f)
+            if d2 is not None and (d2 << s) & m:
+                return f"mask {m:#x} for {path} overlaps the bits of {f} ({d2:#x} << {s})"
+        for f2, w2, m2, s2 in self.extractions:
+            if w2 == word and f2 != path and m2 & m:
+                return f"masks for {path} ({m:#x}) and {f2} ({m2:#x}) overlap"
+        self.extractions.append((path, word, m, shift))
+        return ""
+
+    def domain(self, path: str) -> t.Optional[int]:
+        """OR of all values a closed IntEnum/IntFlag field can take (None when open/unknown)."""
+        cls = self.field_types.get(path)
+        if cls is None:
+            return None
+        if cls.find_method("_missing_") is not None:
+            return None
+        dom = 0
+        for v in self.repo.enum_members(cls).values():
+            if isinstance(v, int):
+                dom |= v
+        return dom
+
     def _nested_rrepeat(self, v: t.Any, sub: "Matcher", path: str, wconds: t.List[t.Tuple[t.Any, bool]]) -> t.Optional[str]:
         kind, info = sub.vals.get(v[1], (None, None))
         if kind != "repeat":
@@ -304,6 +403,33 @@ class Matcher:
         if over != path:
             return f"reader builds {path} from the elements written for {over}"
         return sub2.value_matches(v[2], f"{path}[*]", wconds)
+
+
+def _or_terms(word: Lin) -> t.Optional[t.List[t.Tuple[str, int]]]:
+    """word = f1 << s1 | f2 << s2 | ... -> [(field path, shift)]"""
+    if word.const != 0 or len(word.terms) != 1:
+        return None
+    (atom, coef), = word.terms.items()
+    if coef != 1:
+        return None
+    if atom[0] == "field":
+        return [(atom[1], 0)]
+    if atom[0] == "lshift" and isinstance(atom[1], Lin) and isinstance(atom[2], Lin) and atom[2].is_const():
+        inner = _or_terms(atom[1])
+        if inner is None:
+            return None
+        return [(f, s + atom[2].const) for f, s in inner]
+    if atom[0] == "bitor":
+        out: t.List[t.Tuple[str, int]] = []
+        for x in atom[1:]:
+            if not isinstance(x, Lin):
+                return None
+            sub = _or_terms(x)
+            if sub is None:
+                return None
+            out += sub
+        return out
+    return None
 
 
 def _retable(tb: Table, rmap: t.Dict[Atom, Lin]) -> Table:
@@ -452,6 +578,10 @@ def agree_paths(
         matched = False
         for ri, r in enumerate(rpaths):
             m = Matcher(repo, Table(segs, Lin(base)), src, size_of=sizes.size)
+            for fld in cls.fields():
+                ty = parse_type(repo, fld.ann, repo.classes[fld.owner].mod)
+                if ty[0] == "intenum":
+                    m.field_types[f"self.{fld.name}"] = ty[1]
             prob: t.Optional[Mismatch] = None
             for n, rd in enumerate(r.reads):
                 prob = m.read(rd)
@@ -504,4 +634,105 @@ def agree_paths(
             b = best or Mismatch("no reader path is taken for the bytes of this writer path")
             b.what = f"writer path [{when}]: {b.what}"
             v.problems.append(b)
+    return v
+
+
+def agree_delegate(
+    repo: Repo,
+    cls: Cls,
+    sizes: Sizes,
+    base_cls: Cls,
+    sources: t.Sequence[str],
+    passthrough: t.Sequence[str] = (),
+) -> Verdict:
+    """Known sub-codec whose pack() delegates to ``Base(..., a, b).pack()`` and whose
+    ``_unpack(cls, a, b)`` decodes the byte strings handed over by Base.unpack."""
+    v = Verdict()
+    fpack = cls.methods.get("pack")
+    funpack = cls.methods.get("_unpack")
+    if fpack is None or funpack is None:
+        raise Unsupported(f"{cls.qual}: delegating codec without pack/_unpack")
+    wpaths = layout.writer_paths(repo, fpack)
+    rpaths = layout.reader_paths(repo, funpack)
+    v.tables = {"writer": [p.describe() for p in wpaths], "reader": [p.describe() for p in rpaths]}
+    for w in wpaths:
+        if len(w.segs) != 1 or w.segs[0].kind != "nested" or w.segs[0].a.get("obj") is None or w.segs[0].cls is not base_cls:
+            v.ok = False
+            v.problems.append(Mismatch(f"pack() does not delegate to {base_cls.name}(...).pack()"))
+            continue
+        obj: SObj = w.segs[0].obj
+        # discriminant and pass-through fields must be handed to the base codec unchanged
+        for name in passthrough:
+            got = obj.fields.get(name)
+            fld = cls.field(name)
+            want = Lin.atom(("field", f"self.{name}"))
+            if fld is not None and not fld.init and fld.default is not None:
+                okc, cv = repo.try_fold(fld.default, repo.classes[fld.owner].mod)
+                if okc:
+                    want = Lin(getattr(cv, "value", cv))
+            if not (isinstance(got, Lin) and got == want):
+                v.ok = False
+                v.problems.append(Mismatch(f"pack() hands {got!r} to {base_cls.name}.{name} instead of self.{name}"))
+        matched = False
+        best: t.Optional[Mismatch] = None
+        for r in rpaths:
+            ms: t.Dict[str, Matcher] = {}
+            for src in sources:
+                val = obj.fields.get(src)
+                if not isinstance(val, SBytes):
+                    val = SBytes([])
+                ms[src] = Matcher(repo, Table(sizes._expand(val.segs)), src, size_of=sizes.size)
+                for fld in cls.fields():
+                    ty = parse_type(repo, fld.ann, repo.classes[fld.owner].mod)
+                    if ty[0] == "intenum":
+                        ms[src].field_types[f"self.{fld.name}"] = ty[1]
+            prob: t.Optional[Mismatch] = None
+            for rd in r.reads:
+                if rd.src in ms:
+                    prob = ms[rd.src].read(rd)
+                    if prob is not None:
+                        break
+            if prob is None and not isinstance(r.result, SObj):
+                prob = Mismatch(f"_unpack returns {r.result!r}")
+            if prob is None:
+                res: SObj = r.result
+                fields = dict(res.fields)
+                for fld in res.cls.init_params():
+                    if fld.name not in fields and fld.default is None:
+                        prob = Mismatch(f"_unpack does not set field {fld.name}")
+                for name, val in fields.items():
+                    if prob is not None:
+                        break
+                    if name in passthrough:
+                        ok = isinstance(val, Lin) and val == Lin.atom(("field", name))
+                        if not ok:
+                            prob = Mismatch(f"_unpack builds {name} from {val!r} instead of its {name} argument")
+                        continue
+                    whys = []
+                    for src, m in ms.items():
+                        merged = m
+                        for other in ms.values():
+                            if other is not m:
+                                merged.rmap.update({k: x for k, x in other.rmap.items() if k[0] == "read"})
+                                merged.vals.update(other.vals)
+                        why = m.value_matches(val, f"self.{name}", w.conds)
+                        if why is None:
+                            whys = []
+                            break
+                        whys.append(why)
+                    if whys:
+                        prob = Mismatch(f"decode(encode(x)).{name} is not x.{name}: {whys[0]}")
+                # every byte string handed to the base must be fully consumed by a full-width read
+                if prob is None:
+                    for src, m in ms.items():
+                        unread = [i for i, sg in enumerate(m.table.segs) if i not in m.used and sg.kind not in ("lit", "pad")]
+                        if unread:
+                            prob = Mismatch(f"_unpack never decodes {_segname(m.table.segs[unread[0]])} written into {src}")
+            if prob is None:
+                matched = True
+                break
+            best = best or prob
+        if not matched:
+            v.ok = False
+            v.problems.append(best or Mismatch("no reader path"))
     return v
